@@ -95,7 +95,7 @@ let handle toks =
            let cs, _ = parse_chunks k r in
            let s = c16_store_of (z_of_int 1) (z_of_int 1) (z_of_int md_comp) (z_of_int md_target) cs in
            let tr, res = c16_rechunker_same s (optz comp) (optz tgt) (rechunk <> 0) in
-           let fin = last_or [] tr in
+           let fin = last_or [(p_SRC, s)] tr in
            Printf.sprintf "%s src=%s" (show_unit_res res) (show_dir (lookup p_SRC fin))
        | _ -> "BAD")
   | "onload" :: rest ->
